@@ -147,7 +147,9 @@ pub fn cli_scenario(idx: u64, t: &mut Tape) -> CliScn {
     if invalid_kind.is_none() && t.draw(CFG, 4) == 0 {
         let secs = |t: &mut Tape| *t.pick(CFG, &[1u64, 4, 3600, u64::MAX]);
         let (r, w, c) = (secs(t), secs(t), secs(t));
-        let n = *t.pick(CFG, &[0usize, 1, 2, usize::MAX]);
+        // (a small retry count: the auto-detecting queries probe variants the host does not answer, and
+        // each of those probes is retried as often as asked)
+        let n = *t.pick(CFG, &[0usize, 1, 2, 5]);
         args.extend(["--read-timeout".to_string(), r.to_string(), "--write-timeout".to_string(), w.to_string(), "--connect-timeout".to_string(), c.to_string(), "--retries".to_string(), n.to_string()]);
         timeouts = Some((r, w, c, n));
     }
